@@ -224,7 +224,9 @@ def ev_class(ea, eb, i):
 PROFILE = {
     # the same handler style is registered on both servers
     'world_kw_st': st.fixed_dictionaries({
-        'legacy_disconnect': st.sampled_from([False, False, True, 'varargs'])}),
+        'legacy_disconnect': st.sampled_from([False, False, True, 'varargs']),
+        # the disconnect handler itself sends a last message to the session it is told about
+        'farewell': st.sampled_from([False, False, True])}),
     'client_flavours': ['plain', 'plain', 'plain', 'plain', 'jsonp', 'gzip', 'jsonp+gzip'],
     'weights': {'open': 3, 'poll': 3, 'post': 5, 'probe_step': 4, 'ws_send': 3, 'ws_close': 1,
                 'ws_fail': 1, 'pong': 1, 'app_send': 4, 'app_disconnect': 2, 'advance': 3,
